@@ -182,6 +182,8 @@ def handleC06 (op : String) (input impl : Json) : Except String Json := do
     let viol :=
       (if re == bs then [] else ["block-index-reencodes-to-the-stored-bytes"]) ++
       (if fs == bs then [] else ["block-index-reads-back-from-the-store"]) ++
+      (if (fldD v "fromBlockBytes" (Json.str "")).compress == (fldD v "bytes" (Json.str "")).compress then []
+       else ["index-from-block-bytes-equals-index-from-rows"]) ++
       (if keyIsHash then [] else ["key-is-hash-of-content"]) ++
       (if idx.rows.length == nRows && isPermOfRange idx.sortedOff nRows && nondecreasingAlong idx.sortedOff idx.rows then []
        else ["block-index-sorted-by-key-hash"])
